@@ -376,6 +376,21 @@ func genContainer(c *Ctx) {
 		}()...), facts, nil)
 		lastLen := len(ldw(set[len(set)-1].c.Bytes(), set[len(set)-1].b))
 		emitBoth("ctn/cut-between-blocks", true, full[:len(full)-lastLen], facts, nil)
+		// cuts at the structural positions of every section: inside and right after its length prefix, inside and
+		// right after its CID, one byte into and one byte short of its data
+		off := len(hdr)
+		emitBoth("ctn/corrupt/cut-in-header", true, full[:1], facts, nil)
+		emitBoth("ctn/corrupt/cut-in-header", true, full[:len(hdr)-1], facts, nil)
+		for _, t := range set {
+			sec := ldw(t.c.Bytes(), t.b)
+			pl := len(sec) - len(t.c.Bytes()) - len(t.b) // length of the prefix
+			for _, cut := range []int{1, pl, pl + 1, pl + len(t.c.Bytes()), pl + len(t.c.Bytes()) + 1, len(sec) - 1} {
+				if cut > 0 && cut < len(sec) {
+					emitBoth("ctn/corrupt/cut-in-section", true, full[:off+cut], facts, nil)
+				}
+			}
+			off += len(sec)
+		}
 		emitBoth("ctn/corrupt/no-header", true, full[len(hdr):], facts, nil)
 		emitBoth("ctn/corrupt/header-version2", true, func() []byte {
 			h2 := mkMap(ent{"roots", mkList()}, ent{"version", basicnode.NewInt(2)})
